@@ -37,7 +37,9 @@ def run_entry(arg):
             p = subprocess.run(['git', '-C', d, 'apply', os.path.join(VERIF, ent['patch'])], stderr=subprocess.PIPE)
         if p.returncode != 0:
             return False, 'SKIP  %-45s patch does not apply: %s' % (ent['patch'], p.stderr.decode()[:100])
-        env = dict(os.environ, GOWP_NO_RETRY='1', GOWP_REPO=d, GOWP_EVIDENCE_DIR=os.path.join(root, 'ev'), GOWP_REPLAY_DIR=os.path.join(root, 'replay'))
+        env = dict(os.environ, GOWP_REPO=d, GOWP_EVIDENCE_DIR=os.path.join(root, 'ev'), GOWP_REPLAY_DIR=os.path.join(root, 'replay'))
+        if ent.get('expect', 'violation') == 'violation':
+            env['GOWP_NO_RETRY'] = '1'      # (a change that must be detected: no second, slower attempt at the failed obligations)
         r = subprocess.run([os.path.join(VERIF, 'gowp'), 'check', ent['property']], stdout=subprocess.PIPE, stderr=subprocess.PIPE, env=env)
         out = r.stdout.decode()
         viol = [l for l in out.split('\n') if l.startswith('VIOLATION')]
